@@ -40,6 +40,38 @@ def verdict (s : String) : Option KhVerdict :=
   if s == "match" then some .matches else if s == "mismatch" then some .mismatch
   else if s == "unknown" then some .unknown else if s == "revoked" then some .revoked else none
 
+def content (khLoads v : String) : Option KhContent :=
+  if khLoads == "missing" then some .missing
+  else if khLoads == "0" then some .malformed
+  else (verdict v).map .holds
+
+/-- the 14 fields of one connection:
+`host port user pw timeoutNs strict key kh khLoads(1|0|missing) keyLoads verdict accKey accPw accKbd` -/
+def parseConn : List String → Option Conn
+  | [host, port, user, pw, tmo, strict, key, kh, khLoads, keyLoads, v, accKey, accPw, accKbd] =>
+    match fromHex host, port.toInt?, fromHex user, fromHex pw, tmo.toInt?, fromHex key, fromHex kh, content khLoads v with
+    | some host, some port, some user, some pw, some tmo, some key, some kh, some cont =>
+      some { a := { host := host, port := port, user := user, password := pw, timeoutNs := tmo },
+             s := { strictKey := s2b strict, privateKeyPath := key, knownHostsFile := kh },
+             kh := cont, keyLoads := s2b keyLoads,
+             accepts := fun
+               | .publicKey _ => s2b accKey
+               | .password _ => s2b accPw
+               | .keyboardInteractive _ => s2b accKbd }
+    | _, _, _, _, _, _, _, _ => none
+  | _ => none
+
+def showConn (c : Conn) : String :=
+  let out := showOutcome (standardConn c)
+  let att := showAuth (standardConnAttempts c)
+  match standardCfg c.a c.s c.kh.loads c.keyLoads with
+  | .error e => s!"err {showErr e} {out} {att}"
+  | .ok cfg => s!"ok {toHex cfg.addr} {toHex cfg.user} {showPolicy cfg.policy} {showAuth cfg.auth} {out} {att}"
+
+def chunks (n : Nat) (l : List String) : Nat → List (List String)
+  | 0 => []
+  | fuel + 1 => if l.isEmpty then [] else l.take n :: chunks n (l.drop n) fuel
+
 end C14
 open C14
 
@@ -50,6 +82,7 @@ open C14
 * `parse argv` → meaning of an argv under `sshParse`
 * `std host port user pw timeoutNs strict key kh khLoads keyLoads verdict accKey accPw accKbd`
   → `<ok addr user policy auth | err e> <outcome> <credentials offered, in order>`
+* `hist <14 fields> <14 fields> …` → the same per connection of a history, joined by ` ;; `
 * `default` → the strict flag of `newSSHArgs` -/
 def handleC14 : List String → String
   | ["default"] => b2s newSSHArgs.strictKey
@@ -75,21 +108,19 @@ def handleC14 : List String → String
         let pwfree := argv.all fun e => !isInfix pw e
         s!"dom={b2s dom} pwdom={b2s pwdom} pwfree={b2s pwfree} ok {toHex bin} {showHexList argv} | {showEff (sshParse argv)}"
     | _, _, _, _, _, _, _, _, _, _, _ => "bad-op"
-  | ["std", host, port, user, pw, tmo, strict, key, kh, khLoads, keyLoads, v, accKey, accPw, accKbd] =>
-    match fromHex host, port.toInt?, fromHex user, fromHex pw, tmo.toInt?, fromHex key, fromHex kh, verdict v with
-    | some host, some port, some user, some pw, some tmo, some key, some kh, some v =>
-      let a : Args := { host := host, port := port, user := user, password := pw, timeoutNs := tmo }
-      let s : SSHArgs := { strictKey := s2b strict, privateKeyPath := key, knownHostsFile := kh }
-      let acc : AuthMethod → Bool
-        | .publicKey _ => s2b accKey
-        | .password _ => s2b accPw
-        | .keyboardInteractive _ => s2b accKbd
-      let out := showOutcome (standardOpen a s (s2b khLoads) (s2b keyLoads) v acc)
-      let att := showAuth (standardAttempts a s (s2b khLoads) (s2b keyLoads) v acc)
-      match standardCfg a s (s2b khLoads) (s2b keyLoads) with
-      | .error e => s!"err {showErr e} {out} {att}"
-      | .ok c => s!"ok {toHex c.addr} {toHex c.user} {showPolicy c.policy} {showAuth c.auth} {out} {att}"
-    | _, _, _, _, _, _, _, _ => "bad-op"
+  | "std" :: f =>
+    match parseConn f with
+    | some c => showConn c
+    | none => "bad-op"
+  -- hist: any number of connections (14 fields each) opened one after the other in one process
+  | "hist" :: f =>
+    match (chunks 14 f (f.length + 1)).mapM parseConn with
+    | some cs =>
+      if cs.isEmpty then "bad-op" else
+      -- the outcomes come from the history function; the per-connection details are printed alongside
+      let outs := standardHistory cs
+      " ;; ".intercalate ((cs.zip outs).map fun (c, o) => s!"{showConn c} hist={showOutcome o}")
+    | none => "bad-op"
   | _ => "bad-op"
 
 end Driver.C14
